@@ -311,3 +311,59 @@ async def late_wait_case(rng):
         conn.abort()
         wire.cut_link()
         await memwire.settle(4)
+
+
+async def text_flow_case(rng):
+    """Text-mode channel carrying multi-byte characters through a small receive window, many windows long: the
+    window is counted in BYTES on both sides, so the transfer must neither stall nor overrun whatever the ratio of
+    characters to bytes."""
+    import asyncssh
+    window = rng.choice([64, 256, 1024])
+    encoding = rng.choice(['utf-8', 'utf-8', 'utf-16'])
+    alphabet = rng.choice(['\u65e5\u672c\u8a9e', '\u00e9\u20ac\U0001d11e', 'a\u00e9', '\U0001d11e'])
+    nchars = rng.choice([6, 12, 40]) * window
+    lag = rng.choice([0, 5])
+    res = {'data': [], 'done': False, 'error': None}
+
+    async def handle(stdin, stdout, stderr):
+        try:
+            while True:
+                for _ in range(lag):
+                    await asyncio.sleep(0)
+                d = await stdin.read(rng.choice([1, 17, 4096]))
+                if not d:
+                    break
+                res['data'].append(d)
+        except Exception as e:                  # noqa
+            res['error'] = repr(e)
+        res['done'] = True
+        stdout.channel.exit(0)
+
+    class Srv(asyncssh.SSHServer):
+        def begin_auth(self, u):
+            return False
+
+    tun, wire, acc, conn = await memwire.connected_pair(
+        Srv, srv_kw={'session_factory': handle, 'encoding': encoding, 'window': window})
+    try:
+        chan, sess = await conn.create_session(asyncssh.SSHClientSession, encoding=encoding)
+        text = ''.join(alphabet[i % len(alphabet)] for i in range(nchars))
+        step = max(1, nchars // 7)
+        for i in range(0, nchars, step):
+            chan.write(text[i:i + step])
+        chan.write_eof()
+        await _turns(lambda: res['done'], lambda: (len(res['data']), len(wire.log['c']), len(wire.log['s'])))
+        cfg = {'kind': 'text_flow', 'window': window, 'encoding': encoding, 'alphabet': alphabet, 'nchars': nchars, 'lag': lag}
+        got = ''.join(res['data'])
+        if not res['done']:
+            return (f'text channel ({encoding}, {window}-byte window) stalled after {len(got)} of {nchars} characters '
+                    f'({len(text.encode(encoding))} bytes): no further WINDOW_ADJUST'), cfg
+        if res['error']:
+            return f'text reader raised {res["error"]}', cfg
+        if got != text:
+            return f'text channel delivered {len(got)} of {nchars} characters', cfg
+        return None, cfg
+    finally:
+        conn.abort()
+        wire.cut_link()
+        await memwire.settle(4)
